@@ -261,6 +261,10 @@ def step (s : S) (ws : List String) : S × List String :=
       | some m' => ({ s with m := some { m' with useRaw := m.useRaw, pwait2 := m.pwait2 } }, [])
       | none => diverge s "unknown poll method"
   | some _, "RAWPOST" :: _ => (s, [])
+  -- records of the harness about itself / for the implementation-side oracles only (not library behaviour)
+  | some _, "PROBE-EINTR" :: _ => (s, [])
+  | some _, "EARLY" :: _ => (s, [])
+  | some _, "TRY-FAILED-ON-OPEN-FD" :: _ => (s, [])
   | some m, [e] =>
     if e == "BLOCKED" || e == "WAITLIMIT" || e == "CBLIMIT" || e == "EOF" then
       if !s.expected.isEmpty then
